@@ -376,7 +376,7 @@ var fieldAlias = map[string][]string{
 	"BasketDenom": {"Denom"}, "Iri": {}, "Url": {}, "Manager": {}, "Amount": {"Quantity", "Balance"}, "AskDenom": {"BankDenom"}, "Name": {}, "Curator": {}, "Admin": {}, "Issuer": {}, "Seller": {}, "Address": {},
 }
 
-var loopCarried = regexp.MustCompile(`[A-Za-z0-9_$]+\.L\d+/[A-Za-z_][A-Za-z0-9_]*\.[A-Z]`)
+var loopCarried = regexp.MustCompile(`[A-Za-z0-9_$]+\.L\d+(?:#\d+)?/[A-Za-z_][A-Za-z0-9_]*\.[A-Z]`)
 
 func sameName(field, term string) []string {
 	// term of the form <Table>#n.<Column> (possibly wrapped by a conversion helper)
